@@ -36,6 +36,8 @@ var zzTexts = []string{
 	"vars { string $key number $val }\nset_tx_meta($key, 1) set_tx_meta(\"other\", $val) send [USD $val] (\n  source = @a\n  destination = @b\n) set_account_meta(@a, $key, $val)\n",
 	"vars {\n  acount $dest\n  monetary $m\n}\nsend $m (\n  source = @world\n  destination = $dest\n)\n",
 	"vars {\n  number $x\n  number $y\n  monetary $fee\n  portion $p\n  account $acc\n}\nsend [USD $x + $y - $x] (\n  source = { max $fee - [USD 1] from $acc  @b allowing overdraft up to $fee + $fee }\n  destination = { $p to $acc remaining to { max $fee to @c remaining kept } }\n)\nset_account_meta($acc, \"k\", $y - 1 + $x)\n",
+	// constructs written over several lines (one operand per line, a call's arguments below each other)
+	"vars {\n  number $x\n  number $y\n  monetary $fee\n  portion $p\n  account $acc\n}\nsend [USD $x\n  + $y\n  - $x] (\n  source = {\n    max $fee\n      - [USD 1]\n    from $acc\n    @b allowing overdraft up to\n      $fee\n      + $fee\n  }\n  destination = {\n    $p\n      to $acc\n    remaining\n      to @c\n  }\n)\nset_account_meta(\n  $acc,\n  \"k\",\n  $y\n    - 1\n    + $x\n)\n",
 }
 
 // the first two identify different documents although they differ only in the case of
